@@ -252,6 +252,8 @@ def classify_out(out):
     head = f[0]
     if head in ("nil", "err") and len(f) > 1:
         return head + " " + f[1]
+    if head.isdigit():
+        return "entry"
     if head == "msg":
         return "msg " + ("norecs" if out.rstrip().endswith("recs=") or " recs= " in out else "recs")
     return head[:24] if len(head) < 24 else "data"
